@@ -565,3 +565,25 @@ func (s *Sim) ThreadMode() int {
 	}
 	return s.thr.Mode
 }
+
+// AP records the write that append(s, ...) may perform into the spare capacity
+// of s's backing array, and returns s.
+func AP(sl interface{}, site int32) interface{} {
+	s := S
+	if s == nil || s.thr == nil || s.thr.ts == nil {
+		return sl
+	}
+	rv := reflect.ValueOf(sl)
+	if !rv.IsValid() || rv.Kind() != reflect.Slice || rv.Cap() == rv.Len() {
+		return sl
+	}
+	es := rv.Type().Elem().Size()
+	if es == 0 {
+		return sl
+	}
+	// one element beyond len is where the first appended value goes
+	base := unsafe.Pointer(rv.Pointer())
+	p := unsafe.Add(base, uintptr(rv.Len())*es)
+	s.access(p, uintptr(rv.Cap()-rv.Len())*es, true, site)
+	return sl
+}
